@@ -158,6 +158,42 @@ pub fn shim_hashset_extend<T: Eq + Hash>(s: &mut HashSet<T>, other: HashSet<T>)
 } // verus!
 }
 pub use crate::stdx3::*;
+pub mod stdx5 {
+use vstd::prelude::*;
+use std::collections::{BTreeMap, BTreeSet};
+verus! {
+/// N4 shim: `for PAT in MAP` over an owned BTreeMap (vstd has no spec for btree_map::IntoIter)
+#[verifier::external_body]
+pub fn shim_btreemap_into_vec<K: Ord, V>(m: BTreeMap<K, V>) -> (r: Vec<(K, V)>)
+    ensures
+        forall|i: int| 0 <= i < r@.len() ==> m@.contains_key((#[trigger] r@[i]).0) && m@[r@[i].0] == r@[i].1,
+        forall|i: int, j: int| 0 <= i < j < r@.len() ==> (#[trigger] r@[i]).0 != (#[trigger] r@[j]).0,
+        forall|k: K| m@.contains_key(k) ==> exists|i: int| 0 <= i < r@.len() && (#[trigger] r@[i]).0 == k,
+{
+    m.into_iter().collect()
+}
+/// N2 shim for `MAP.entry(K).or_default()` on a BTreeMap
+#[verifier::external_body]
+pub fn shim_btreemap_entry_or_default<'a, K: Ord, V: Default>(m: &'a mut BTreeMap<K, V>, k: K) -> (r: &'a mut V)
+    ensures
+        crate::spec::actor_ok::<K>() ==> {
+            &&& (old(m)@.contains_key(k) ==> *r == old(m)@[k])
+            &&& (!old(m)@.contains_key(k) ==> V::default.ensures((), *r))
+            &&& final(m)@ == old(m)@.insert(k, *final(r))
+        },
+{
+    m.entry(k).or_default()
+}
+/// `SET.append(&mut OTHER)` for BTreeSets
+#[verifier::external_body]
+pub fn shim_btreeset_append<T: Ord>(s: &mut BTreeSet<T>, other: &mut BTreeSet<T>)
+    ensures crate::spec::actor_ok::<T>() ==> final(s)@ == old(s)@.union(old(other)@),
+{
+    s.append(other)
+}
+}
+}
+pub use crate::stdx5::*;
 pub mod stdx4 {
 use vstd::prelude::*;
 verus! {
